@@ -36,10 +36,11 @@ CHECKS = {
         ],
         "rule": "same generator as C01, 30% tie-heavy dictionaries; every non-empty tokenization is judged (a) by an independent i64 DP over "
                 "the dumped lattice (Viterbi recurrence of every node and of EOS, back-pointers, reported tokens = back-pointer chain, "
-                "total_cost = prefix sums) and (b) black-box against the reference optimum over reference candidates. Non-trivial = "
+                "total_cost = prefix sums), (b) black-box against the reference optimum over reference candidates and (c) for sentences of <= 7 "
+                "characters against the minimum found by enumerating every segmentation one by one. Non-trivial = "
                 "lattice with a boundary where >= 2 nodes end; distinct = hash of (dictionary, user lexicon, mapping, sentence, options).",
         "required_buckets": ["connector_matrix", "connector_raw", "connector_dual", "tie_among_optimal_paths", "eos_connection_decides",
-                             "negative_word_cost_on_path", "blackbox_optimum_compared"],
+                             "negative_word_cost_on_path", "blackbox_optimum_compared", "every_segmentation_enumerated"],
         "assumptions": ["accumulated costs stay within i32 (cases beyond half the range are skipped and counted)",
                         "connection costs used by the oracle come from the generator's description, not from the connector under test"],
     },
